@@ -40,7 +40,7 @@ Record resobs := mkres {
   q_fine : bool                    (* no barrier timed out, Build reached UpdateState, one watch stream *)
 }.
 
-Record case := mkcase {
+Record pcase := mkcase {
   c_under : list key;
   c_events : list ev;
   c_steps : list stepobs;
@@ -48,7 +48,7 @@ Record case := mkcase {
   c_res : option resobs
 }.
 
-Definition under_of (c : case) (k : key) : bool := existsb (Nat.eqb k) (c_under c).
+Definition under_of (c : pcase) (k : key) : bool := existsb (Nat.eqb k) (c_under c).
 
 (* ---------------------------------------------------------------- small executable helpers *)
 Fixpoint all2 {A B} (f : A -> B -> bool) (l1 : list A) (l2 : list B) : bool :=
@@ -171,7 +171,7 @@ Definition res_ok (u : key -> bool) (h : list ev) (q : resobs) : bool :=
   q_fine q &&
   all2 (fun m o => match m with Ok l => set_eqb o l | _ => false end) (res_model u h) (q_states q).
 
-Definition model_ok (c : case) : bool :=
+Definition pmodel_ok (c : pcase) : bool :=
   let u := under_of c in
   match c_res c with
   | Some q => res_ok u (c_events c) q
@@ -282,9 +282,13 @@ Fixpoint steps_spec (u : key -> bool) (prev pm : amap) (h : list ev) (inf : list
 
 (* the proviso on a history: a key is always published with the same value *)
 Definition events_consistent (h : list ev) : bool :=
-  calls_consistent [] (flat_map (fun e => match e with Put k v _ => [CAdd k v] | _ => [] end) h).
+  calls_consistent [] (flat_map (fun e => match e with
+                                          | Put k v _ => [CAdd k v]
+                                          | Batch items => flat_map (fun b => match b with BPut k v => [CAdd k v] | BDel _ => [] end) items
+                                          | _ => []
+                                          end) h).
 
-Definition spec_ok (c : case) : bool :=
+Definition pspec_ok (c : pcase) : bool :=
   let u := under_of c in
   let inf := if events_consistent (c_events c) then infos u [] (false, false) (c_events c) else [] in
   (* the resolver: once everything is processed the ClientConn has last been told the live values *)
@@ -301,3 +305,64 @@ Definition spec_ok (c : case) : bool :=
   end &&
   steps_spec u [] [] (c_events c) inf (c_steps c) &&
   forallb (fun t => cont_spec u inf (t_excl t) (t_start t) [] (t_ops t) (t_samples t)) (c_conts c).
+
+(* ---------------------------------------------------------------- the publisher (lib/discov driver, kind "pub") *)
+Record pubrow := mkrow {
+  w_store : list (key * nat);     (* (key, lease) of every key left in the scripted etcd *)
+  w_values : list val;            (* what the subscriber of the key lists *)
+  w_fine : bool                   (* no barrier timed out *)
+}.
+
+Record pubobs := mkpub {
+  b_id : option nat;              (* WithId *)
+  b_val : val;
+  b_ops : list pop;
+  b_rows : list pubrow            (* after every operation *)
+}.
+
+Definition store_eqb (a b : list (key * nat)) : bool :=
+  list_eqb (fun x y => Nat.eqb (fst x) (fst y) && Nat.eqb (snd x) (snd y)) a b.
+
+(* the subscriber attached before the publisher started, fed by what the store emitted *)
+Definition pub_view (s : pstate) : result (list val) :=
+  match subs (run (fun _ => true) (Subscribe [] [] [] :: p_events s)) with
+  | log :: _ => fst (get_values (crun false (map OCall log)))
+  | [] => Panic
+  end.
+
+Fixpoint pub_rows (id : option nat) (v : val) (s : pstate) (ops : list pop) (rows : list pubrow) : bool :=
+  match ops, rows with
+  | [], [] => true
+  | o :: ops', r :: rows' =>
+      let s' := pstep id v s o in
+      w_fine r && store_eqb (w_store r) (p_store s') &&
+      match pub_view s' with Ok l => set_eqb (w_values r) l | _ => false end &&
+      pub_rows id v s' ops' rows'
+  | _, _ => false
+  end.
+
+Definition pub_model_ok (b : pubobs) : bool := pub_rows (b_id b) (b_val b) pinit (b_ops b) (b_rows b).
+
+(* the property: whenever the publisher is not registered (paused, stopped) no key of it remains and the
+   subscriber does not list it; while it is registered the subscriber lists exactly its value *)
+Fixpoint pub_spec_rows (id : option nat) (v : val) (s : pstate) (ops : list pop) (rows : list pubrow) : bool :=
+  match ops, rows with
+  | o :: ops', r :: rows' =>
+      let s' := pstep id v s o in
+      match p_mode s' with
+      | PActive => Nat.eqb (length (w_store r)) 1 && list_eqb Nat.eqb (w_values r) [v]
+      | _ => is_nil (w_store r) && is_nil (w_values r)
+      end && pub_spec_rows id v s' ops' rows'
+  | _, _ => true
+  end.
+
+Definition pub_spec_ok (b : pubobs) : bool := pub_spec_rows (b_id b) (b_val b) pinit (b_ops b) (b_rows b).
+
+(* ---------------------------------------------------------------- a correspondence case *)
+(* CHist: one pcase per prefix subscribed on the cluster (the history projected on the prefix) *)
+Inductive case := CHist (l : list pcase) | CPub (b : pubobs).
+
+Definition model_ok (c : case) : bool :=
+  match c with CHist l => forallb pmodel_ok l | CPub b => pub_model_ok b end.
+Definition spec_ok (c : case) : bool :=
+  match c with CHist l => forallb pspec_ok l | CPub b => pub_spec_ok b end.
